@@ -576,6 +576,7 @@ package scanner
 //@   property C07,C01
 //@   requires s != nil && itemsOK(s)
 //@   modifies je.includeTrace, je.includeTrace[:]
+//@   ghost je.gTraced := true
 //@ func addIncludeTraceToError loop 1
 //@   invariant i < len(stack)
 //@   invariant je != nil && (je.includeTrace.arr == old(je.includeTrace.arr) || fresh(je.includeTrace.arr))
